@@ -402,7 +402,9 @@ class Inliner(object):
                 nm = p if (p not in caller_names and not isinstance(a, ast.Name)) else '%s__%s%d' % (p, h.node.name.strip('_'), self.tmp)
                 if nm in caller_names:
                     nm = '%s__%s%d' % (p, h.node.name.strip('_'), self.tmp)
-                pre.append(ast.copy_location(ast.Assign(targets=[ast.Name(id=nm, ctx=ast.Store())], value=a), call))
+                pa = ast.copy_location(ast.Assign(targets=[ast.Name(id=nm, ctx=ast.Store())], value=a), call)
+                pa._inl = True          # a binding made up here (canon N41 / N44 may fold it back into the statement that reads it)
+                pre.append(pa)
                 if nm != p:
                     mapping[p] = nm
         # helper locals that clash with caller names
@@ -496,7 +498,7 @@ class Inliner(object):
                         if not _ends(hb):
                             new.append(ast.copy_location(ast.Return(value=ast.copy_location(ast.Constant(value=None), s)), s))
                     elif isinstance(s, ast.Expr):
-                        new = pre + _tail(hb, lambda e, at: ([ast.copy_location(ast.Expr(value=e), at)] if e is not None and not isinstance(e, (ast.Name, ast.Constant)) else []), s)
+                        new = pre + _tail(hb, lambda e, at: ([ast.copy_location(ast.Expr(value=e), at)] if e is not None and not _pure_expr(e) else []), s)
                     else:
                         tg = s.targets
 
